@@ -142,6 +142,9 @@ func c11Run(c *core.Ctx, i int64, in c11Input, kinds []int, r *rand.Rand) {
 	hasErrStep := false
 	for k, kd := range kinds {
 		steps[k] = c11Step(kd, r)
+		if steps[k].Err == mon.ErrInjected && i%4 == 1 {
+			steps[k].Err = mon.ErrWrappedEOF // a read error whose chain contains io.EOF is still a read error
+		}
 		steps[k].Delay = []int{0, 0, 1, 2, 3}[r.Intn(5)]
 		if steps[k].Err == mon.ErrInjected {
 			hasErrStep = true
@@ -150,6 +153,9 @@ func c11Run(c *core.Ctx, i int64, in c11Input, kinds []int, r *rand.Rand) {
 	_ = hasErrStep
 	sc := mon.NewScript("c11.bcl", in.data, steps)
 	sc.CloseDelay = []int{0, 0, 2, 3}[r.Intn(4)]
+	if i%9 == 4 {
+		sc.CloseErr = mon.ErrClose // Close itself fails: still called once, nothing left behind
+	}
 	sc.MarkOffset = in.mark
 	lg := &mon.LockedWriter{DelayClass: []int{0, 0, 1, 2}[r.Intn(4)]}
 	out := &mon.LockedWriter{}
@@ -248,6 +254,13 @@ func c11Run(c *core.Ctx, i int64, in c11Input, kinds []int, r *rand.Rand) {
 	}
 	// a read error is returned in preference to parse errors (when the reader got to deliver it)
 	rl := sc.ReadLog()
+	if strings.Contains(rl, mon.ErrWrappedEOF.Error()) {
+		c.Count("runs_with_wrapped_eof_read_error_delivered", 1)
+		if err != mon.ErrWrappedEOF {
+			c.Violation(sig("read-error-lost"), fmt.Sprintf("the reader returned %q but the call returned %v", mon.ErrWrappedEOF, err), det())
+			return
+		}
+	}
 	if strings.Contains(rl, mon.ErrInjected.Error()) {
 		c.Count("runs_with_read_error_delivered", 1)
 		if !errors.Is(err, mon.ErrInjected) {
@@ -471,10 +484,25 @@ func c12Callers(c *core.Ctx, i int64, r *rand.Rand) {
 	got := make([]ImplResult, n)
 	fileErr := make([]error, n)
 	fileLog := make([]string, n)
+	// one option slice with spare capacity, shared by all callers (as built with append(common, ...))
+	sharedOut := &mon.LockedWriter{}
+	shared := make([]bcl.Option, 1, 8)
+	shared[0] = bcl.OptOutput(sharedOut)
+	names := make([]string, n)
+	useDefaultLog := i%3 == 0
+	if !useDefaultLog {
+		shared = append(shared, bcl.OptLogger(&mon.LockedWriter{}))
+	}
 	for k := range jobs {
 		wg.Add(1)
 		go func(k int) {
 			defer wg.Done()
+			// Parse under this caller's own name with the shared options; the name must come back in the dump
+			if p, err := bcl.Parse(jobs[k].src, fmt.Sprintf("caller-%d", k), shared...); err == nil {
+				names[k] = bcl.VerifProgParts(p).Name
+			} else {
+				names[k] = fmt.Sprintf("caller-%d", k)
+			}
 			got[k] = Interpret(jobs[k].src)
 			sc := mon.NewScript("c.bcl", jobs[k].src, []mon.Step{{N: 7}, {N: 100}})
 			lg := &mon.LockedWriter{}
@@ -493,6 +521,12 @@ func c12Callers(c *core.Ctx, i int64, r *rand.Rand) {
 		}
 		if (fileErr[k] == nil) != (w.Err == nil || strings.HasPrefix(w.Err.Error(), "runtime error")) {
 			c.Violation("concurrent-callers-influence", fmt.Sprintf("ParseFile concurrently: err=%v, alone Interpret err=%v", fileErr[k], w.Err), nil)
+			return
+		}
+	}
+	for k := range names {
+		if names[k] != fmt.Sprintf("caller-%d", k) {
+			c.Violation("concurrent-callers-influence", fmt.Sprintf("caller %d parsed under the name caller-%d got a program named %q", k, k, names[k]), nil)
 			return
 		}
 	}
@@ -582,6 +616,34 @@ func init() {
 		Shards:        func(tier string) int { return 8 },
 		Env:           core.RaceEnv,
 		Run: func(c *core.Ctx) {
+			// the very first use of the library in this process happens from several goroutines at once
+			if c.Only < 0 && c.From == 0 {
+				c.Begin(-1)
+				var wg sync.WaitGroup
+				start := make(chan struct{})
+				bad := make([]string, 16)
+				for g := 0; g < 16; g++ {
+					wg.Add(1)
+					go func(g int) {
+						defer wg.Done()
+						<-start
+						r := Interpret([]byte(fmt.Sprintf("var x = %d\nprint x + 1 * 2 - (3 and 4 or not 5)\ndef b { f = x == %d }\n", g, g)))
+						if r.Err != nil || r.Panic != "" || r.Out == "" {
+							bad[g] = fmt.Sprintf("err=%v panic=%q out=%q log=%q", r.Err, r.Panic, r.Out, r.Log)
+						}
+					}(g)
+				}
+				close(start)
+				wg.Wait()
+				c.Eval(16)
+				for _, b := range bad {
+					if b != "" {
+						c.Violation("first-use-concurrent", "a valid program fails when the library's first use in a process is concurrent: "+b, nil)
+						break
+					}
+				}
+				c.Count("processes_whose_first_library_use_was_concurrent", 1)
+			}
 			n := int64(c.Pick(5000, 100000))
 			for i := int64(0); i < n; i++ {
 				if !c.Mine(i) {
